@@ -301,7 +301,7 @@ def getDialog (m : Message) : Option Bytes × Message :=
             | some fa, some ta => (some (dialogId callId ftag (getDialogAddr fa) ttag (getDialogAddr ta)), m2)
             | _, _ => (none, m2)
 
-/-- `GetClientTransaction`: CSeq method + "-" + top Via branch. -/
+/-- `GetClientTransaction`: CSeq method + " " + top Via branch. -/
 def getClientTransaction (m : Message) : Option Bytes × Message :=
   match getCSeq cm m with
   | none => (none, m)
@@ -314,7 +314,7 @@ def getClientTransaction (m : Message) : Option Bytes × Message :=
       | vp :: _ =>
         match getParam vp.params (str "branch") with
         | none => (none, m2)
-        | some br => (some (c.method ++ [45] ++ br), m2)
+        | some br => (some (c.method ++ [32] ++ br), m2)   -- one blank: the method is one word
 
 /-! ### Bytes() -/
 
